@@ -213,6 +213,11 @@ func runChild(p *Prop, b Batch, scratch string, idx int) *childResult {
 	if timeout == 0 {
 		timeout = 5 * time.Minute
 	}
+	if v := os.Getenv("VERIF_BATCH_TIMEOUT"); v != "" {
+		if n, err := strconv.Atoi(v); err == nil && n > 0 {
+			timeout = time.Duration(n) * time.Second
+		}
+	}
 	done := make(chan error, 1)
 	go func() { done <- cmd.Wait() }()
 	select {
